@@ -136,6 +136,7 @@ class CSSStyleSheet(cssutils.stylesheets.StyleSheet):
     @cssRules.setter
     def cssRules(self, cssRules):
         "Set new cssRules and update contained rules refs."
+        self._checkReadonly()
         cssRules.append = self.insertRule
         cssRules.extend = self.insertRule
         cssRules.__delitem__ = self.deleteRule
